@@ -1,4 +1,5 @@
 """C34 -- object system: destructors once, derived first, exactly at the last release (dsched + exhaustive tiny spaces + stress)."""
+import glob
 import os
 import subprocess
 
@@ -60,11 +61,26 @@ def run(tier, seed, res):
     wr = core.run_workers(PROP, jobs, max_parallel=1)
     res.absorb(wr, "stress")
     collect(res, wr)
+    _regress(b, res)
 
 
-def replay(path):
-    b = _build()
+def _replay_bin(b, path):
     env = dict(os.environ)
     env.update(core.SAN_RUN_ENV)
     p = subprocess.run([b, "replay", path], env=env, stdout=subprocess.PIPE, stderr=subprocess.STDOUT, text=True)
     return p.returncode == 0 and "REPLAY-PASS" in p.stdout, p.stdout[-2000:]
+
+
+def _regress(b, res):
+    """every saved case under corpus/<PROP>/regress must still hold"""
+    n = 0
+    for f in sorted(glob.glob(os.path.join(core.VERIF, "corpus", PROP, "regress", "*.txt"))):
+        ok, msg = _replay_bin(b, f)
+        n += 1
+        if not ok:
+            res.violations.append(core.Violation("saved case %s fails: %s" % (os.path.basename(f), msg[-600:]), replay_path=f))
+    res.coverage["regress_cases_replayed"] = n
+
+
+def replay(path):
+    return _replay_bin(_build(), path)
